@@ -19,6 +19,7 @@ The input classes of the generator audit are in vlib/gen_c16.py."""
 import itertools, sys
 from vlib import common as C
 from vlib import gen_c16 as X    # the input classes added by the generator audit (audit/C16)
+from props import c16_features as F2   # the second audit: inputs on which a well-meant feature or clean-up would show its defect
 
 DRIVERS = ['Multipart', 'Serve']   # model driver files this check runs: scopes translator failures to the tables they (and the proofs) import
 TRUSTED = ['Rust std on valid UTF-8 as modelled on bytes: String::from_utf8 (Rws.Utf8M.valid), str::trim (25 White_Space '
@@ -305,6 +306,7 @@ def run(res, tier, seed):
             gen_cases.append((ps, b, 'boundary:' + bk))
     # 2b. the shapes the base generator does not draw (look-alikes of the boundary, long lines, long / unusual header texts, …)
     gen_cases += X.rt_cases(rx.fork('rt'), quick, P)
+    gen_cases += F2.rt_cases(rx.fork('rt2'), quick, P)
     for ps, b, tag in gen_cases:
         add('mpgen ' + parts_field(enc_parts(ps)) + ' ' + C.hx(b), 'gen', (ps, b, tag))
 
@@ -370,7 +372,7 @@ def run(res, tier, seed):
         add('mpparse ' + C.hx(bad) + ' ' + C.hx(b), 'must-err', 'headerless')
 
     # 4b. preamble before a complete body, the last delimiter of a several-part body missing, headerless part with a bare LF
-    for data, b, label in X.malformed_cases(rx.fork('malformed'), quick, P):
+    for data, b, label in X.malformed_cases(rx.fork('malformed'), quick, P) + F2.malformed_cases(rx.fork('malformed2'), quick, P):
         add('mpparse ' + C.hx(data) + ' ' + C.hx(b), 'must-err', label)
 
     # 5. every truncation of small valid bodies
@@ -407,16 +409,18 @@ def run(res, tier, seed):
             add('mpparse ' + C.hx(browser_body(enc_parts(ps), b.encode())) + ' ' + C.hx(b), 'browser', (ps, b))
     # 6c. browser-shaped bodies on the other boundary families (hyphens only, 1 / 70 characters, self-overlapping), 2..8 parts,
     #     with and without the final line break
-    for ps, b, final in X.browser_cases(rx.fork('browser'), quick, P):
+    for ps, b, final in X.browser_cases(rx.fork('browser'), quick, P) + F2.browser_cases(rx.fork('browser2'), quick, P):
         if not (wf_parts(ps) and ok_boundary(b, ps)): continue
         data = browser_body(enc_parts(ps), b.encode())
         add('mpparse ' + C.hx(data if final else data[:-2]) + ' ' + C.hx(b), 'browser', (ps, b))
     # 6d. Content-Type values whose boundary spells the parameter name; other spellings of the header (differential only)
     judged, free = X.content_types(rx.fork('ct'), quick, P)
+    j2, f2 = F2.content_types(rx.fork('ct2'), quick, P)
+    judged, free = judged + j2, free + f2
     for ct, b, tag in judged: add('mpboundary ' + C.hx(ct), 'boundary', (b, tag))
     for ct in free: add('mpboundary ' + C.hx(ct), 'ct-any', None)
     # 7. unstructured: line soups and mutations (differential only, "never a panic")
-    for data, b in X.lenient_cases(rx.fork('lenient'), quick, P):
+    for data, b in X.lenient_cases(rx.fork('lenient'), quick, P) + F2.free_cases(rx.fork('free2'), quick, P):
         add('mpparse ' + C.hx(data) + ' ' + C.hx(b), 'soup', None)
     nsoup = 1200 if quick else 40000
     for i in range(nsoup):
@@ -551,10 +555,14 @@ def run(res, tier, seed):
             res.fail('panic:' + a.split(' ', 1)[1], short, a, None, 'parse panicked'); continue
         if inhyp and a != 'ok ' + parts_field(enc_parts(ps)):
             res.fail('roundtrip', short, a[:200], None, 'parse(generate(ps, b), b) != ps for well-formed ps and a boundary that does not occur in the data')
+    nhist = F2.history_part(res, rx.fork('history'), tier, P)
     necho = X.echo_part(res, rx.fork('echo'), tier, P)
     res.rule += ('; audit classes (vlib/gen_c16.py): small bodies in each position of a 3-part list, look-alikes of the boundary, long lines, '
                  'long / unusual header texts, repeated header names, preamble / last-delimiter-missing / LF-headerless bodies, browser-shaped bodies '
-                 'on all boundary families, boundaries that spell `boundary=`, lenient spellings (differential), %d echo requests through four entry points' % necho)
+                 'on all boundary families, boundaries that spell `boundary=`, lenient spellings (differential), %d echo requests through four entry points; '
+                 'second audit (props/c16_features.py): the delimiter across power-of-two offsets, line lengths around them, multi-byte texts in every alignment, '
+                 'part-level Content-Length / transfer encodings / nested multipart types / charsets and byte order marks, values a decoder would touch, '
+                 '8 parts x 64 KiB, real clients\' boundaries, %d calls in sequences with related boundaries and bodies in one process' % (necho, nhist))
     k = next(i for i, m in enumerate(meta) if m[0] == 'gen')
     res.sample({'op': lines[k][:160], 'implementation': impl[k][:120], 'model': model[k][:120]})
     k = next(i for i, m in enumerate(meta) if m[0] == 'trunc' and m[1][3] > 20)
